@@ -12,7 +12,7 @@ CLAIMS = {
    ref="DESIGN.md section 4 C10, section 3 E1/E7/E8"),
  "C09": dict(
    technique="may-throw and may-write effect summaries over the resolved call graph; must-pass-through on the structured CFG",
-   text="Decides the structural half of C09 in all six configurations: divide_cell's single try catches every type its callee closure may throw and no noexcept function on its cone leaks an exception (no crash on failed division); its may-write effects on the mother are within cell::rebase's; daughters are returned only after initialize_cell_properties(true); each inherits mother.target_volume_/2; every concrete cell class constructs its own class; cell_divider::run appends two cells / records one removal under critical with ids from the post-incremented shared counter, removes and renumbers after the loop, and never resizes the list while other threads read it; no size of the mother's node/face list is kept in the divider across a call that may compact that list. Also: the identity shortcut of map_points_to_xy_plane is taken only for a division normal that is exactly the z axis.",
+   text="Decides the structural half of C09 in all six configurations: divide_cell's single try catches every type its callee closure may throw and no noexcept function on its cone leaks an exception (no crash on failed division); its may-write effects on the mother are within cell::rebase's; daughters are returned only after initialize_cell_properties(true); each inherits mother.target_volume_/2; every concrete cell class constructs its own class; cell_divider::run appends two cells / records one removal under critical with ids from the post-incremented shared counter, removes and renumbers after the loop, and never resizes the list while other threads read it; no size of the mother's node/face list is kept in the divider across a call that may compact that list. Also: the identity shortcut of map_points_to_xy_plane is taken only for a division normal that is exactly the z axis. Also: the origin of the cut plane and of the daughter sorting is the mother's centroid computed from her current node positions (compute_centroid(), not the cache refreshed by the mesh refiner).",
    note="Geometric clauses (daughter volumes, sides of the plane, manifoldness of the cut) quantify over meshes and are not decided. Trusted: CHA, syntactic object identity, frozen table of throwing std calls.",
    ref="DESIGN.md section 4 C09"),
 }
@@ -20,7 +20,7 @@ CLAIMS = {
 CLAIMS.update({
  "C05": dict(
    technique="symbolic normal forms (sympy) of the kernel's return expressions obtained by def-use expansion over clang's AST; compositional translation-weight typing",
-   text="Decides, for all operand values and for each of the seven return statements of compute_node_triangle_distance: the barycentric components sum to one; the returned squared distance is the squared distance from the query point to the point those components designate; both are unchanged under a common translation. An identity on the expression is stronger than any number of samples. It does not decide that the region tests pick the closest point, non-negativity of the components, rotation invariance or rounding - those need reasoning under branch conditions / floating point, which this family does not do.",
+   text="Decides, for all operand values and for each of the seven return statements of compute_node_triangle_distance: the barycentric components sum to one; the returned squared distance is the squared distance from the query point to the point those components designate; both are unchanged under a common translation. An identity on the expression is stronger than any number of samples. It does not decide that the region tests pick the closest point, non-negativity of the components, rotation invariance or rounding - those need reasoning under branch conditions / floating point, which this family does not do. Also: each result that designates a vertex or an edge point is returned exactly under the Voronoi-region test of that feature (polynomial identities in the coordinates of p, a, b, c).",
    note="Trusted: sympy expand/cancel for polynomial identity; refutations are exact non-zero values at rational points (sound). vec3's operators are opened from their own AST, not modelled. No branch condition is interpreted.",
    ref="DESIGN.md section 4 C05, section 2 (LF engine)"),
  "C07": dict(
@@ -38,12 +38,12 @@ CLAIMS.update({
    ref="DESIGN.md section 4 C03"),
  "C13": dict(
    technique="must-pass-through on the structured CFG with retry-idiom recognition; may-throw summaries; guard dataflow",
-   text="Decides the structural half of C13: triangulate_surface can only return a cell that passed initialize_cell_properties(check=true) on that path (bounded-retry idiom recognised, failure exit throws intialization_exception); initialize_cell_properties(true) passes through generate_edge_set, throws on !is_manifold() and orients normals; per-cell work runs under parallel_exception_handler; no noexcept function on the start-up cone leaks an exception; every insertion into the Poisson grid is guarded by the all-neighbours |p-q|^2 < l_min*l_min rejection over the neighbourhood of the same grid. Also: cell::is_manifold tests both 'every edge has two faces' and V - E + F == 2; the grid in which accepted Poisson samples are looked up has a voxel size >= the rejection distance; parallel_exception_handler transports the worker's exception unchanged (catch(...) + current_exception, no slicing).",
+   text="Decides the structural half of C13: triangulate_surface can only return a cell that passed initialize_cell_properties(check=true) on that path (bounded-retry idiom recognised, failure exit throws intialization_exception); initialize_cell_properties(true) passes through generate_edge_set, throws on !is_manifold() and orients normals; per-cell work runs under parallel_exception_handler; no noexcept function on the start-up cone leaks an exception; every insertion into the Poisson grid is guarded by the all-neighbours |p-q|^2 < l_min*l_min rejection over the neighbourhood of the same grid. Also: cell::is_manifold tests both 'every edge has two faces' and V - E + F == 2; the grid in which accepted Poisson samples are looked up has a voxel size >= the rejection distance; parallel_exception_handler transports the worker's exception unchanged (catch(...) + current_exception, no slicing). Also: the stored face normals are computed after the orientation repair in initialize_cell_properties; no function on the start-up cone keeps a function-local static initialised from run-time values.",
    note="Fidelity of the reconstruction (volume, bounding box, distance to the input surface) and the success probability are value-level and not decided. Neighbourhood completeness is C20.",
    ref="DESIGN.md section 4 C13"),
  "C15": dict(
    technique="OpenMP region analysis over clang AST with the build's own flags: may-write effect summaries (call graph fixpoint), may-throw containment, container-resize typestate",
-   text="Decides data-race freedom and exception containment of every parallel region (directive regions and parallel_exception_handler call sites) in all six configurations: no exception can leave a region; a catch(...) in a region only stores current_exception() under critical and it is rethrown right after; no container is resized in a region while accessed outside the same critical section; every mutation of shared state by the region body or its whole callee closure is atomic, critical, under the node's lock, or confined to the loop's own element; vec3::translate's updates are atomic in the program as built (the compile database's flags are used, which is how the missing -fopenmp of math_modules was found). Also: the region rules are also decided for units built without -fopenmp whose pragmas are currently ignored (latent), restricted to writes to variables declared outside the region; after the parallel division loop the whole list is renumbered from 0 after every population change.",
+   text="Decides data-race freedom and exception containment of every parallel region (directive regions and parallel_exception_handler call sites) in all six configurations: no exception can leave a region; a catch(...) in a region only stores current_exception() under critical and it is rethrown right after; no container is resized in a region while accessed outside the same critical section; every mutation of shared state by the region body or its whole callee closure is atomic, critical, under the node's lock, or confined to the loop's own element; vec3::translate's updates are atomic in the program as built (the compile database's flags are used, which is how the missing -fopenmp of math_modules was found). Also: the region rules are also decided for units built without -fopenmp whose pragmas are currently ignored (latent), restricted to writes to variables declared outside the region; after the parallel division loop the whole list is renumbered from 0 after every population change. Also: no function executed inside a parallel region (body or callee closure) declares a mutable function-local static; the three component updates of vec3::translate are atomic also when written through a helper taking double& or a delegating overload.",
    note="Bit-identity of results across thread counts and schedules is not decided (no schedule exploration in this family). Aliasing between different handles is not tracked; virtual calls by CHA.",
    ref="DESIGN.md section 4 C15, section 3 E6"),
  "C17": dict(
@@ -87,7 +87,7 @@ CLAIMS.update({
    ref="DESIGN.md section 4 C04"),
  "C12": dict(
    technique="polynomial identities on the per-face / per-node contributions (LF engine), structural matching of accumulations and running extrema, 3x3 index-layout interpretation of constructor/transpose/get_col",
-   text="Decides exact formula clauses: the volume integrand (and the signed-volume sibling in the orientation check) is the scalar triple product of the face's own nodes, volume = |sum|/6, inside-out cells are flipped through a reference; face area = |cross|/2 and normal = normalised cross product; centroid contribution = (x1+x2+x3)/3*area over used faces, divided by area_; area = sum of used faces' areas; the bounding box keeps per-axis running extrema over used nodes from +/-infinity and returns (min xyz, max xyz); the covariance entries accumulate (p_a-c_a)(p_b-c_b) for the matching axes into a symmetric matrix; the index conventions of the mat33 constructor, transpose and get_col compose so that the axis returned when eval[k] dominates is the solver's evec[k] in component order. Also: the signed volume that decides the global flip is summed only after the flood fill has made all windings consistent; volume / centroid / area / bounding box / axis selection are decided on the symbolic value of what is returned, independent of local names and statement forms.",
+   text="Decides exact formula clauses: the volume integrand (and the signed-volume sibling in the orientation check) is the scalar triple product of the face's own nodes, volume = |sum|/6, inside-out cells are flipped through a reference; face area = |cross|/2 and normal = normalised cross product; centroid contribution = (x1+x2+x3)/3*area over used faces, divided by area_; area = sum of used faces' areas; the bounding box keeps per-axis running extrema over used nodes from +/-infinity and returns (min xyz, max xyz); the covariance entries accumulate (p_a-c_a)(p_b-c_b) for the matching axes into a symmetric matrix; the index conventions of the mat33 constructor, transpose and get_col compose so that the axis returned when eval[k] dominates is the solver's evec[k] in component order. Also: the signed volume that decides the global flip is summed only after the flood fill has made all windings consistent; volume / centroid / area / bounding box / axis selection are decided on the symbolic value of what is returned, independent of local names and statement forms. Also: the signed-volume sums range over every slot of face_lst_ (not the first get_nb_of_faces() slots).",
    note="Trusted: the eigen solver's convention evec[k] <-> eval[k]. Frame independence, independence of the element numbering, the flood-fill orientation repair and the eigen-solver's accuracy are not decided.",
    ref="DESIGN.md section 4 C12"),
 })
@@ -103,7 +103,7 @@ CLAIMS.update({
 CLAIMS.update({
  "C18": dict(
    technique="binding-table extraction by dataflow over clang AST (string literal -> get_string_value -> optional -> conversion -> field) compared with frozen reference tables; consumer (who-reads-which-field) table",
-   text="Decides for all 31 XML tags: the tag is presence-tested (throwing) before use, converted with the right function, stored in the field of that name, lower-cased/INF-mapped exactly for the two documented tags, and every sign validation tests the field just assigned with the documented comparison; cell and face types are appended in document order; every parameter field is consumed at the site the frozen consumer table names (time step -> integrator and growth, duration -> run loop, sampling period -> save_mesh, edge length -> refiner/divider/contact grid/initial triangulation, swap flag -> refiner, biomechanical fields -> the force routines of the matching kind; repulsive/adhesive contact blocks read repulsion/adherence strength).",
+   text="Decides for all 31 XML tags: the tag is presence-tested (throwing) before use, converted with the right function, stored in the field of that name, lower-cased/INF-mapped exactly for the two documented tags, and every sign validation tests the field just assigned with the documented comparison; cell and face types are appended in document order; every parameter field is consumed at the site the frozen consumer table names (time step -> integrator and growth, duration -> run loop, sampling period -> save_mesh, edge length -> refiner/divider/contact grid/initial triangulation, swap flag -> refiner, biomechanical fields -> the force routines of the matching kind; repulsive/adhesive contact blocks read repulsion/adherence strength). The binding table is extracted by value flow (tag literal -> optional -> dominating presence test with throw -> conversions -> field, through locals, reference locals, helpers and constant tables), so it is independent of statement order, nesting and splitting into helpers.",
    note="Reference tables are frozen in the checker from doc/parameter_file_doc.md and the struct definitions; rows added to the reader are tolerated. std::stod's numeric parsing of arbitrary magnitudes is not decided.",
    ref="DESIGN.md section 4 C18, section 3 E5"),
 })
@@ -111,7 +111,7 @@ CLAIMS.update({
 CLAIMS.update({
  "C19": dict(
    technique="sibling / table rules over the writers' operator<< chains and mapper table, schedule and file-number rules (LF engine for floor(t/S)+1)",
-   text="Decides: in both statistics writers header and rows have the same fixed columns, each followed by the separator, range over the same mapper list (name vs extractor applied to the row's own cell) and end with exactly one newline (per header / per cell row), and the two writers agree; the columns cell_id, type_id, area, volume, target_volume, pressure come from the getter of that quantity and each getter returns the field of that name; statistics are written under iteration_ % 50 == 0 and once after the run loop, iteration_ is incremented exactly once per iteration; save_mesh computes floor(t/S)+1, writes only on change after storing the number, builds the cell-data and face-data paths from that same stored number, hands over the current population, and is the first action of every iteration.",
+   text="Decides: in both statistics writers header and rows have the same fixed columns, each followed by the separator, range over the same mapper list (name vs extractor applied to the row's own cell) and end with exactly one newline (per header / per cell row), and the two writers agree; the columns cell_id, type_id, area, volume, target_volume, pressure come from the getter of that quantity and each getter returns the field of that name; statistics are written under iteration_ % 50 == 0 and once after the run loop, iteration_ is incremented exactly once per iteration; save_mesh computes floor(t/S)+1, writes only on change after storing the number, builds the cell-data and face-data paths from that same stored number, hands over the current population, and is the first action of every iteration. Also: no function on the cone of the concurrent file-writing sections formats through a mutable function-local static buffer.",
    note="K within one of T/S+1 depends on floating-point accumulation of the simulated time and is not decided; neither is parseability of the written files (see C16).",
    ref="DESIGN.md section 4 C19"),
 })
@@ -119,7 +119,7 @@ CLAIMS.update({
 CLAIMS.update({
  "C16": dict(
    technique="writer/reader binding-table agreement: string templates of the writer's emissions vs the reader's regex literals, declared-count vs emitting-loop agreement, extracted from clang AST",
-   text="Decides table agreement between mesh_writer and mesh_reader: every section line the writer emits (POINTS n float, CELLS a b, CELL_TYPES n, the cell_type_id field header) is matched by the reader's regex for that section, the declared coordinate type is accepted, the %.4e tokens are matched entirely by the reader's number regex and not cut by its end-of-section detector; declared counts agree with the emitting loops (points = sum of node_lst sizes with three coordinates per node, per-cell record 1+4F with literal 3 and get_node_ids() of size 3 plus the cell's own node offset, CELLS/CELL_TYPES counts, data-array lengths, cell_type_id from global_type_id_); the reader requires type 42 and verifies record lengths. Also: mesh overload of write_cell_data: the declared record length sums the node counts of ALL faces.",
+   text="Decides table agreement between mesh_writer and mesh_reader: every section line the writer emits (POINTS n float, CELLS a b, CELL_TYPES n, the cell_type_id field header) is matched by the reader's regex for that section, the declared coordinate type is accepted, the %.4e tokens are matched entirely by the reader's number regex and not cut by its end-of-section detector; declared counts agree with the emitting loops (points = sum of node_lst sizes with three coordinates per node, per-cell record 1+4F with literal 3 and get_node_ids() of size 3 plus the cell's own node offset, CELLS/CELL_TYPES counts, data-array lengths, cell_type_id from global_type_id_); the reader requires type 42 and verifies record lengths. Also: mesh overload of write_cell_data: the declared record length sums the node counts of ALL faces. Also: a cell record of the CELLS section is ended by exactly one newline at the level of the loop over the cells (the reader takes every line as one record).",
    note="Equality of the tissue after a round trip and precision of %.4e are value-level and not decided. Reader regexes are evaluated with Python's re (they only use constructs common to both dialects).",
    ref="DESIGN.md section 4 C16"),
 })
